@@ -2,7 +2,7 @@
 import glob, os, re, sys
 import common as C
 sys.path.insert(0, os.path.join(C.VERIF, "gen"))
-import progs
+import progs, numprogs
 
 LEVEL = "proof"
 META = dict(
@@ -64,7 +64,7 @@ def run(ctx):
     ncorpus = len(sx)
     hist = {}
     for _ in range(nprog):
-        g = progs.Gen(rng.fork(), feat=dict(optbias=True, strs=True))
+        g = progs.Gen(rng.fork(), feat=dict(optbias=True, strs=True, refassign=True))
         sx.append(g.program(rng.range(2, 5)))
         for k, v in g.hist.items():
             hist[k] = hist.get(k, 0) + v
@@ -158,6 +158,22 @@ def run(ctx):
                     continue
                 found += 1
                 ctx.violation("input", {"mode": "evalprog", "program": t, "optimized": a, "unoptimized": b})
+    # numeric-literal programs (every spelling of a number as loop start / bound, operand of a folded operation, conversion argument)
+    nnum = 8000 if thorough else 800
+    nums = [numprogs.gen_program(rng.fork()) for _ in range(nnum)]
+    with ctx.timer("impl"):
+        no, _ = C.run_harness_resilient(exe, [], ["1000000 std 1 opt %s" % t.encode().hex() for t in nums], timeout=900, mem_gb=6, stall=30)
+        nn, _ = C.run_harness_resilient(exe, [], ["1000000 std 1 noopt %s" % t.encode().hex() for t in nums], timeout=900, mem_gb=6, stall=30)
+    for t, a, b in zip(nums, no, nn):
+        if a != b:
+            if CONV_CALL.search(t) and ctx.known_finding("CONVERSION_CALL_FOLDED", t):
+                continue
+            found += 1
+            if found <= 6:
+                ctx.violation("input", {"mode": "evalprog", "program": t, "optimized": a, "unoptimized": b})
+    ctx.count("evaluations", nnum)
+    ctx.cov["numeric_literal_programs"] = nnum
+    ctx.cov["distinct_nontrivial"] = ctx.cov.get("distinct_nontrivial", 0) + len(set(nums))
     files = sorted(glob.glob(os.path.join(C.REPO, "unittests", "*.chai")))
     with ctx.timer("unit_corpus"):
         uo, _ = C.run_harness_resilient(uexe, [], ["1 opt %s" % f.encode().hex() for f in files], timeout=900)
